@@ -356,4 +356,37 @@ theorem tokenize_render (p : Program) (h : TokClass p = true) :
   obtain ⟨L, h1, h2⟩ := program_cmds p h
   simp [tokenize, h1, h2]
 
+/-! ## non-vacuity: nested parentheses behind an `if`, a definition with a body, measurements -/
+
+/-- ```
+include "qelib1.inc";
+qreg q[2];
+creg c[2];
+gate g(p,lam) a,b {
+U(p/2,0,-(lam+pi)) a;
+cx a,b;
+barrier a,b;
+}
+if(c==1) u2(1,(pi+pi)*(1.25-pi)) q[0];
+if(c==3) measure q[1] -> c[0];
+g(-(pi/2),sin(pi)) q[0],q[1];
+measure q -> c;
+barrier q[0],q;
+``` -/
+def exProg : Program :=
+  [.incl cs!"qelib1.inc", .qreg cs!"q" 2, .creg cs!"c" 2,
+   .gate ⟨cs!"g", [cs!"p", cs!"lam"], [cs!"a", cs!"b"],
+     [.U (.div (.id cs!"p") (.lit cs!"2")) (.lit cs!"0") (.neg (.add (.id cs!"lam") .pi)) cs!"a",
+      .call cs!"cx" [] [cs!"a", cs!"b"], .barrier [cs!"a", cs!"b"]]⟩,
+   .ifc cs!"c" 1 (.call cs!"u2" [.lit cs!"1", .mul (.add .pi .pi) (.sub (.lit cs!"1.25") .pi)] [.idx cs!"q" 0]),
+   .ifc cs!"c" 3 (.measure (.idx cs!"q" 1) (.idx cs!"c" 0)),
+   .qop (.call cs!"g" [.neg (.div .pi (.lit cs!"2")), .fn cs!"sin" .pi] [.idx cs!"q" 0, .idx cs!"q" 1]),
+   .qop (.measure (.whole cs!"q") (.whole cs!"c")),
+   .barrier [.idx cs!"q" 0, .whole cs!"q"]]
+
+example : TokClass exProg = true := by decide
+
+example : tokenize (renderProgram exProg) = .ok (exProg.flatMap tokensOf) :=
+  tokenize_render exProg (by decide)
+
 end QipVerif.Qasm.Tok
